@@ -323,7 +323,7 @@ class C14(CheckBase):
                                   "reuse": True})
             p = subprocess.run([sys.executable, "-m", "sim.xproc", payload],
                                cwd=VERIF_ROOT, env=env, capture_output=True,
-                               text=True, timeout=120)
+                               text=True, timeout=600)
             line = [x for x in p.stdout.splitlines() if x.startswith("XPROC ")]
             if p.returncode != 0 or not line:
                 return {"harness": "xproc child failed: " + p.stderr[-800:],
